@@ -53,7 +53,8 @@ def to_dict(query_string):
     if query_string.endswith("&"):
         query_string = str(query_string[:-1])
 
-    query_pairs = dict(urlparse.parse_qsl(urlparse.urlsplit("?" + query_string).query))
+    # (blank values are kept: "key=" asks for an empty value, dropping the pair would apply the rest of the query without it)
+    query_pairs = dict(urlparse.parse_qsl(urlparse.urlsplit("?" + query_string).query, keep_blank_values=True))
     return query_pairs
 
 
